@@ -79,7 +79,6 @@ structure SearchObs where
   requester : Str
   req : Req
   raised : Bool             -- the datagram handler raised instead of completing
-  sends : List ObsMsg
 deriving Repr
 
 structure CaseObs where
@@ -88,9 +87,13 @@ structure CaseObs where
   location : Str            -- the server's description URL
   target : Str              -- where advertisements go
   searches : List SearchObs
+  responses : List ObsMsg   -- every datagram on the response socket, in send order (several
+                            -- searches may come from one requester: they are not pre-attributed)
   alives : List ObsMsg
   stopTime : Option Int     -- when the announcer was stopped
   annUpto : Option Int      -- until when the announcer was observed (stop time, or the end of the case)
+  annStart : Option Int     -- when the announcer was started
+  maxAgeMs : Int            -- the max-age the server states in its own messages (CACHE-CONTROL), in ms
   byebyes : List ObsMsg
 deriving Repr
 
@@ -114,16 +117,52 @@ def heardOk (loc : Str) (kind : Nat) (m : ObsMsg) (e : Exp) : Bool :=
 
 def isMSearch (r : Req) : Bool := r.line == mSearchLine && r.man == some ssdpDiscover
 
-def okSearch (c : CaseObs) (s : SearchObs) : Bool :=
-  !isMSearch s.req ||
-  (let (exp, ci) := expected c.tree c.alwaysRoot (s.req.st.getD [])
-   !s.raised
-   && (s.sends.map fun m => normKey ci m.st m.usn).isPerm (exp.map fun e => normKey ci e.st e.usn)
-   && s.sends.all fun m =>
-        m.dest == s.requester && s.time ≤ m.time && m.time ≤ s.time + windowMs s.req.mx
-        && m.startLine == okLine && m.nts.isEmpty && m.location == c.location
-        && exp.any fun e => normKey ci e.st e.usn == normKey ci m.st m.usn
-                            && startsWith m.usn e.dev && heardOk c.location 0 m e)
+def expOf (c : CaseObs) (s : SearchObs) : List Exp × Bool :=
+  expected c.tree c.alwaysRoot (s.req.st.getD [])
+
+/-- grouping key of a (ST, USN) pair: ST folded (exact spelling is checked by `accounts`) -/
+def keyL (st usn : Str) : Str × Str := (lower st, usn)
+
+def expKeysL (c : CaseObs) (s : SearchObs) : List (Str × Str) := (expOf c s).1.map fun e => keyL e.st e.usn
+
+/-- search `s` can account for datagram `m`: `m` went to `s`'s requester inside `s`'s MX window and
+    is one of the messages prescribed for `s`'s target (ST compared as that target demands), its
+    USN begins with the described device's UDN, and the listener accepted it as that device -/
+def accounts (c : CaseObs) (s : SearchObs) (m : ObsMsg) : Bool :=
+  isMSearch s.req && m.dest == s.requester && s.time ≤ m.time && m.time ≤ s.time + windowMs s.req.mx
+  && (expOf c s).1.any fun e => normKey (expOf c s).2 e.st e.usn == normKey (expOf c s).2 m.st m.usn
+                              && startsWith m.usn e.dev && heardOk c.location 0 m e
+
+def windowEnd (s : SearchObs) : Int := s.time + windowMs s.req.mx
+
+/-- "each answer exactly once, within the MX window, to the requester" for ONE requester `r` all of
+    whose requests are M-SEARCHes: the datagrams sent to `r` are, as a multiset of (ST, USN), the
+    union of what its searches prescribe, and they can be distributed over those searches' windows:
+    for every time span `[a, b]` delimited by a reception and a window end, at least as many
+    datagrams with a given (ST, USN) lie in the span as the searches whose whole window lies in the
+    span prescribe (the condition for points to be matchable to intervals). -/
+def okRequester (c : CaseObs) (r : Str) : Bool :=
+  -- per search of `r`: reception time, end of its window, prescribed (ST, USN) keys
+  let es := (c.searches.filter (·.requester == r)).map fun s => (s.time, windowEnd s, expKeysL c s)
+  -- per datagram to `r`: its key and send time
+  let ms := (c.responses.filter (·.dest == r)).map fun m => (keyL m.st m.usn, m.time)
+  (ms.map (·.1)).isPerm (es.flatMap (·.2.2))
+  && es.all fun ei => es.all fun ej => (ms.map (·.1)).eraseDups.all fun k =>
+       decide (((es.filter fun e => ei.1 ≤ e.1 && e.2.1 ≤ ej.2.1).map fun e => e.2.2.count k).sum
+               ≤ ms.countP fun m => m.1 == k && ei.1 ≤ m.2 && m.2 ≤ ej.2.1)
+
+/-- the searches and the response socket: no M-SEARCH makes the handler raise; every datagram is a
+    well-formed answer accounted for by some search of its destination; and every requester that
+    sent only M-SEARCHes got each prescribed answer exactly once inside the windows.  (Requests that
+    are not M-SEARCHes, and what is sent to a requester of such a request, are not constrained.) -/
+def okResponses (c : CaseObs) : Bool :=
+  c.searches.all (fun s => !isMSearch s.req || !s.raised)
+  && c.responses.all (fun m =>
+        c.searches.any (fun s => s.requester == m.dest && !isMSearch s.req)
+        || (m.startLine == okLine && m.nts.isEmpty && m.location == c.location
+            && c.searches.any fun s => accounts c s m))
+  && c.searches.all fun s =>
+        c.searches.any (fun s' => s'.requester == s.requester && !isMSearch s'.req) || okRequester c s.requester
 
 /-- `c` is a sub-multiset of `e` -/
 def subMulti {α : Type} [BEq α] : List α → List α → Bool
@@ -138,26 +177,36 @@ def okNotify (c : CaseObs) (nts : Str) (kind : Nat) (m : ObsMsg) : Bool :=
 def keyOf (m : ObsMsg) : Str × Str := (m.st, m.usn)
 
 /-- round-robin: the announcements repeat with the period of the table, the first round is (a
-    prefix of) the table in some order, equally spaced in time, none after the stop,
-    and it does not cease while the announcer is observed -/
+    prefix of) the table in some order, none after the stop, and they do not cease while the
+    announcer is observed -/
 def okAlives (c : CaseObs) : Bool :=
   let e := (expAll c.tree).map fun e => (e.st, e.usn)
   let a := c.alives.map keyOf
   subMulti (a.take e.length) e
   && (List.range (a.length - e.length)).all (fun i => a[i]? == a[i + e.length]?)
   && c.alives.all (okNotify c ntsAlive 1)
-  && (let ts := c.alives.map (·.time)
-      (List.range (ts.length - 1)).all fun i =>
-        ts.getD i 0 < ts.getD (i + 1) 0 && ts.getD (i + 1) 0 - ts.getD i 0 == ts.getD 1 0 - ts.getD 0 0)
   && (match c.stopTime with
       | some ts => c.alives.all fun m => m.time ≤ ts
       | none => true)
-  -- "periodically": the cycle goes on for as long as the announcer is observed
+  -- "periodically": the announcements do not cease while the announcer is observed — the silence
+  -- at the end of the observation is not longer than some gap between two announcements seen before.
+  -- (No particular spacing is demanded: the text fixes neither the interval nor a send per tick.)
   && (match c.annUpto with
       | some u =>
         let ts := c.alives.map (·.time)
-        ts.length < 2 || decide (u < ts.getD (ts.length - 1) 0 + (ts.getD 1 0 - ts.getD 0 0))
+        -- (only a burst at one instant seen so far: no gap is known yet, nothing can be said)
+        ((List.range (ts.length - 1)).all fun i => ts.getD (i + 1) 0 - ts.getD i 0 ≤ 0)
+        || (List.range (ts.length - 1)).any fun i => u - ts.getD (ts.length - 1) 0 ≤ ts.getD (i + 1) 0 - ts.getD i 0
       | none => true)
+  -- it does advertise: an announcer observed for as long as the max-age it states itself (after which
+  -- every listener has forgotten the device) has sent at least one announcement
+  && (match c.annStart, c.annUpto with
+      | some s, some u => decide (c.maxAgeMs ≤ 0) || decide (u - s < c.maxAgeMs) || !c.alives.isEmpty
+      | _, _ => true)
+
+/-- `max-age=N` → N·1000 -/
+def maxAgeOf (cacheControl : Str) : Int :=
+  Int.ofNat (natOfDigits (((cacheControl.dropWhile (· != '=')).drop 1).takeWhile isDigit)) * 1000
 
 def okByebyes (c : CaseObs) : Bool :=
   match c.stopTime with
@@ -168,7 +217,7 @@ def okByebyes (c : CaseObs) : Bool :=
 
 /-- **the judge** -/
 def ok (c : CaseObs) : Bool :=
-  c.searches.all (okSearch c) && okAlives c && okByebyes c
+  okResponses c && okAlives c && okByebyes c
 
 /-! ### well-formed trees (the domain of the theorems; checked on every generated tree) -/
 
